@@ -175,7 +175,7 @@ def check_joins(prop, tier, replay):
 
 
 TYPED_CLASSES = {"typed-request-path", "typed-request-query", "typed-request-count", "typed-readiness-differs", "typed-lifecycle-differs",
-                 "typed-returns-foreign-object", "typed-nil-event", "typed-events-differ", "typed-nil-in-list", "typed-cache-differs",
+                 "typed-returns-foreign-object", "typed-nil-event", "typed-list-error-differs", "typed-events-differ", "typed-nil-in-list", "typed-cache-differs",
                  "typed-monitor-nil-callback", "typed-monitor-differs", "typed-monitor-protocol", "typed-leak", "typed-error", "crash"}
 
 
